@@ -32,6 +32,7 @@ func constIs(v ssa.Value, k constant.Value) bool {
 }
 
 func runC09(c *core.Ctx) {
+	c09ObsoleteOnlyIfPersisted(c)
 	const spmPkg = "data/state/storagePruningManager"
 	// ---- S1
 	if fn := anchorM(c, spmPkg, "storagePruningManager", "removeFromDb"); fn != nil {
@@ -232,4 +233,82 @@ func runC09(c *core.Ctx) {
 			return fresh
 		}, core.SuccessReturn, nil, "obsoleteDataTrieHashes is replaced by an empty map before Commit reports success")
 	}
+}
+
+// c09ObsoleteOnlyIfPersisted: the trie reports a node's hash as obsolete (to be pruned once the old
+// root is dropped) only where that node is known not to be dirty, i.e. it is the persisted version
+// that this very operation replaces. A hash reported on a path where the node may be dirty, or
+// through a disjunction that lets a live persisted node through, deletes nodes the new root needs.
+func c09ObsoleteOnlyIfPersisted(c *core.Ctx) {
+	const pkg = "data/trie"
+	n := 0
+	for _, fn := range c.P.FuncsOfPkg(pkg) {
+		// the mutation walk: insert*/delete* (getAllHashes and friends collect hashes for other purposes)
+		if !(strings.HasPrefix(fn.Name(), "insert") || strings.HasPrefix(fn.Name(), "delete")) {
+			continue
+		}
+		k := 0
+		core.Instrs(fn, func(in ssa.Instruction) {
+			call, ok := in.(*ssa.Call)
+			if !ok {
+				return
+			}
+			b, isB := call.Call.Value.(*ssa.Builtin)
+			if !isB || b.Name() != "append" || len(call.Call.Args) != 2 {
+				return
+			}
+			sl, isSl := call.Call.Args[1].(*ssa.Slice)
+			if !isSl {
+				return
+			}
+			al, isAl := sl.X.(*ssa.Alloc)
+			if !isAl || al.Referrers() == nil {
+				return
+			}
+			// the single appended value
+			var val ssa.Value
+			for _, r := range *al.Referrers() {
+				if ia, ok := r.(*ssa.IndexAddr); ok && ia.Referrers() != nil {
+					for _, rr := range *ia.Referrers() {
+						if st, ok := rr.(*ssa.Store); ok {
+							val = st.Val
+						}
+					}
+				}
+			}
+			if val == nil {
+				return
+			}
+			// whose hash?
+			var owner ssa.Value
+			if base, f := core.FieldLoad(val); f != nil && f.Name() == "hash" {
+				owner = base
+			} else if hc, ok := val.(*ssa.Call); ok && hc.Call.IsInvoke() && hc.Call.Method.Name() == "getHash" {
+				owner = hc.Call.Value
+			}
+			if owner == nil {
+				return
+			}
+			ownerKey := core.ExprKey(owner)
+			k++
+			n++
+			c.Analysed(fname(fn))
+			clean := false
+			for _, cd := range core.CondsAt(call.Block()) {
+				if cd.Taken {
+					continue
+				}
+				if base, f := core.FieldLoad(cd.V); f != nil && f.Name() == "dirty" && core.ExprKey(base) == ownerKey {
+					clean = true
+				}
+				if dc, ok := cd.V.(*ssa.Call); ok && dc.Call.IsInvoke() && dc.Call.Method.Name() == "isDirty" && core.ExprKey(dc.Call.Value) == ownerKey {
+					clean = true
+				}
+			}
+			c.Check(clean, "C09/obsolete-only-if-persisted", fmt.Sprintf("%s/obsolete-hash#%d", fname(fn), k), call.Pos(),
+				"the hash is reported obsolete only where its node is known not to be dirty",
+				"the hash of "+ownerKey+" is reported obsolete on a path where the node is not known to be the persisted (non-dirty) version being replaced: pruning the previous root then deletes a node the current root still references")
+		})
+	}
+	c.Floor("C09/obsolete-only-if-persisted", 4)
 }
